@@ -137,13 +137,13 @@ CHECKS = {
     },
     "C20": {
         "groups": [
-            {"pkg": "Havoc/pkg/profile/yaotl/hclwrite", "with": ["Havoc/pkg/profile/yaotl/hclsyntax"], "entries": ["H_c20_short"], "shards": 4, "flags": ["-tags", "nohint", "-init", "Havoc/pkg/profile/yaotl,golang.org/x/text/unicode/norm,github.com/zclconf/go-cty/...,math/big,github.com/agext/levenshtein"]},
+            {"pkg": "Havoc/pkg/profile/yaotl/hclwrite", "with": ["Havoc/pkg/profile/yaotl/hclsyntax"], "entries": ["H_c20_short"], "shards": 5, "flags": ["-tags", "nohint", "-init", "Havoc/pkg/profile/yaotl,golang.org/x/text/unicode/norm,github.com/zclconf/go-cty/...,math/big,github.com/agext/levenshtein"]},
             {"pkg": "Havoc/pkg/profile/yaotl/gohcl", "with": ["Havoc/pkg/profile/yaotl/hclsyntax"], "entries": ["H_c20_encode"], "shards": 6, "shards_thorough": 9, "flags": ["-tags", "nohint", "-init", "Havoc/pkg/profile/yaotl,golang.org/x/text/unicode/norm,github.com/zclconf/go-cty/...,math/big,github.com/agext/levenshtein"]},
             {"pkg": "Havoc/pkg/profile/yaotl/hclwrite", "with": ["Havoc/pkg/profile/yaotl/hclsyntax"], "entries": ["H_c20_edit"], "shards": 8, "flags": ["-tags", "nohint", "-init", "Havoc/pkg/profile/yaotl,golang.org/x/text/unicode/norm,github.com/zclconf/go-cty/...,math/big,github.com/agext/levenshtein"]},
             {"pkg": "Havoc/pkg/profile/yaotl/hclwrite", "with": ["Havoc/pkg/profile/yaotl/hclsyntax"], "entries": ["H_c20_string_value"], "shards": 6, "shards_thorough": 22, "thorough": ["-time", "3000s"], "flags": ["-tags", "nohint", "-init", "Havoc/pkg/profile/yaotl,golang.org/x/text/unicode/norm,github.com/zclconf/go-cty/...,math/big,github.com/agext/levenshtein"]},
             {"pkg": "Havoc/pkg/profile/yaotl/hclwrite", "with": ["Havoc/pkg/profile/yaotl/hclsyntax"], "entries": ["H_c20_mutate"], "shards": 20, "allow_abandon": ["symbolic int -> float conversion"], "flags": ["-tags", "nohint", "-init", "Havoc/pkg/profile/yaotl,golang.org/x/text/unicode/norm,github.com/zclconf/go-cty/...,math/big,github.com/agext/levenshtein"]},
         ],
-        "bounds": "short files: every byte string of length 0..2 (thorough 0..3) that is a syntactically valid file; mutated files: every single-byte mutation (any position, any byte value) of 4 well-formed sources of 55..75 bytes (three comment styles, labelled and nested blocks, lists, objects, templates with interpolation and if-directives, plain and indented heredocs, conditionals, splats, for-expressions, tabs and odd spacing) that is still a valid file: serialising the loaded tokens reproduces the input byte for byte (a tab between tokens comes back as a space), Format changes nothing but spaces and tabs, Format is idempotent, the formatted file is still valid. Programmatic edits: every sequence of 1..2 edits out of {set attribute a, set the last attribute c, set a new attribute n, remove a, remove c (the last item), remove an unknown attribute, append a block with a label, remove the first block} with an arbitrary 7-bit string of 0..1 (thorough 0..2) characters as value or label, on a file with a free-standing comment, a line comment, two attributes and a labelled block: the output re-parses, shows exactly those changes, keeps the values of untouched items and their comments. Writing a Go value with gohcl.EncodeIntoBody (string, number, flag, list, two labelled blocks; one of host / list element / label+password is an arbitrary 7-bit string of 0..1, thorough 0..2, characters) gives a valid file that gohcl.DecodeBody reads back to the same value. Formatting additionally keeps every attribute value that evaluates (variables bound in the harness) equal before and after. String values: a 7-bit string of 0..2 (thorough: 0..3, in 8 slices by the first character) arbitrary characters written as attribute value or block label reads back as itself through the real scanner, parser and evaluator. Rewrite sources: 5 (the fifth with comments after a closing brace and between block type and label, one-line blocks, keyword index keys).",
+        "bounds": "short files: every byte string of length 0..2 (thorough 0..3) that is a syntactically valid file; mutated files: every single-byte mutation (any position, any byte value) of 4 well-formed sources of 55..75 bytes (three comment styles, labelled and nested blocks, lists, objects, templates with interpolation and if-directives, plain and indented heredocs, conditionals, splats, for-expressions, tabs and odd spacing) that is still a valid file: serialising the loaded tokens reproduces the input byte for byte (a tab between tokens comes back as a space), Format changes nothing but spaces and tabs, Format is idempotent, the formatted file is still valid. Programmatic edits: every sequence of 1..2 edits out of {set attribute a, set the last attribute c, set a new attribute n, remove a, remove c (the last item), remove an unknown attribute, append a block with a label, remove the first block} with an arbitrary 7-bit string of 0..1 (thorough 0..2) characters as value or label, on a file with a free-standing comment, a line comment, two attributes and a labelled block: the output re-parses, shows exactly those changes, keeps the values of untouched items and their comments. Writing a Go value with gohcl.EncodeIntoBody (string, number, flag, list, two labelled blocks; one of host / list element / label+password is an arbitrary 7-bit string of 0..1, thorough 0..2, characters) gives a valid file that gohcl.DecodeBody reads back to the same value. Formatting additionally keeps every attribute value that evaluates (variables bound in the harness) equal before and after. String values: a 7-bit string of 0..2 (thorough: 0..3, in 8 slices by the first character) arbitrary characters written as attribute value or block label reads back as itself through the real scanner, parser and evaluator. Rewrite sources: 5 (the fifth with comments after a closing brace and between block type and label, one-line blocks, keyword index keys). The quick tier additionally runs the 3-byte input EF BB BF (byte-order mark alone), the recorded known finding.",
         "outside": "files longer than the listed sources and multi-byte mutations; sequences of more than one edit; non-ASCII values in edits; decoding the formatted file through gohcl (reflection; hclsyntax-level values are compared); grapheme segmentation is the deterministic one-rune-per-cluster model (combining marks outside); did-you-mean hints stubbed; mutations that turn a digit of a number literal into another digit reach math/big's float-to-text conversion with a symbolic operand (those paths are abandoned, counted in the evidence and not claimed)",
         "min_completed": 3,
     },
